@@ -2,6 +2,7 @@
 from ..paths import PathEnumerator
 from ..guards import fv
 from ..terms import TermBuilder, fmt, mk, const, subterms, linear
+from ..terms import callee_is as _nm
 from .common import SELF, self_field
 
 EXPLANATION = (
@@ -91,13 +92,13 @@ def run(ctx):
                          % (fmt_range(rng), fmt(card), fmt(card)))
         from .common import full_reservoir_facts
         facts0 = pe.path_facts(p)
-        facts = [x for x in full_reservoir_facts(facts0) if x not in facts0 or not any(s_[0] == "call" and s_[1].endswith("Vec::len") for s_ in subterms(x[0]))]
-        acc = [(c, t) for c, t in facts if c[0] == "op" and c[1] in ("Lt", "Le") and any(s[0] == "call" and s[1].endswith("gen_range") for s in subterms(c))]
+        facts = [x for x in full_reservoir_facts(facts0) if x not in facts0 or not any(s_[0] == "call" and _nm(s_[1], "Vec::len") for s_ in subterms(x[0]))]
+        acc = [(c, t) for c, t in facts if c[0] == "op" and c[1] in ("Lt", "Le") and any(s[0] == "call" and _nm(s[1], "gen_range") for s in subterms(c))]
         if len(acc) != 1 or acc[0][0][1] != "Lt" or acc[0][0][2][1] != k_f:
             probs.append("acceptance test is %s, expected j < k" % (fmt(acc[0][0]) if acc else "missing"))
             continue
         j = acc[0][0][2][0]
-        if not (j[0] == "call" and j[1].endswith("gen_range")):
+        if not (j[0] == "call" and _nm(j[1], "gen_range")):
             probs.append("acceptance is tested on %s, not on the drawn index itself (the acceptance probability is no longer k/(i+1))" % fmt(j)[:80])
             continue
         stores = [e for e in p.events if e["kind"] == "write" and e.get("name") == "index_mut" and self_field(e) == "reservoir"]
@@ -125,7 +126,7 @@ def run(ctx):
             # phase, so the None outcome (j >= len) cannot happen — that path is not a path of the program
             from .common import full_reservoir_facts
             j_ = gm[0]["args"][1]
-            drawn = j_[0] == "call" and j_[1].endswith("gen_range") and range_cardinality(j_[2][1]) == k_f and range_start(j_[2][1]) == const(0)
+            drawn = j_[0] == "call" and _nm(j_[1], "gen_range") and range_cardinality(j_[2][1]) == k_f and range_start(j_[2][1]) == const(0)
             fdg = {repr(c_): t_ for c_, t_ in full_reservoir_facts(pe.path_facts(p))}
             if drawn and fv(fdg, mk("Lt", j_, k_f)) is False:
                 continue
@@ -135,7 +136,7 @@ def run(ctx):
             probs_slot.append("%d slot writes on an accepting gap-phase path" % len(stores))
         else:
             j = stores[0]["args"][1]
-            okj = j[0] == "call" and j[1].endswith("gen_range") and range_cardinality(j[2][1]) == k_f and range_start(j[2][1]) == const(0)
+            okj = j[0] == "call" and _nm(j[1], "gen_range") and range_cardinality(j[2][1]) == k_f and range_start(j[2][1]) == const(0)
             if not okj:
                 probs_slot.append("victim slot %s is not drawn from 0..k" % fmt(j))
         sk = [e for e in p.events if e["kind"] == "write" and self_field(e) == "skip_until" and e["how"] == "store"]
@@ -166,7 +167,7 @@ def run(ctx):
                 okg = num[0] == "op" and num[1] == "ln" and den == mk("ln", mk("Sub", const(1.0), want_p))
                 if okg:
                     u = num[2][0]
-                    okg = u[0] == "op" and u[1] == "Sub" and u[2][0] == const(1.0) and u[2][1][0] == "call" and u[2][1][1].endswith("gen_range") \
+                    okg = u[0] == "op" and u[1] == "Sub" and u[2][0] == const(1.0) and u[2][1][0] == "call" and _nm(u[2][1][1], "gen_range") \
                         and range_start(u[2][1][2][1]) == const(0.0) and range_end(u[2][1][2][1]) == const(1.0) \
                         and u[2][1][2][1][0] == "adt" and u[2][1][2][1][1] == "std::ops::Range"   # half-open [0,1): u in (0,1], ln(u) finite
             if not okg:
@@ -226,7 +227,7 @@ def reuse_after_clear(ctx):
 def range_start(r):
     if r[0] == "adt" and r[1] in ("std::ops::Range", "std::ops::RangeInclusive"):
         return dict(r[3]).get("start")
-    if r[0] == "call" and r[1].endswith("RangeInclusive::new"):
+    if r[0] == "call" and _nm(r[1], "RangeInclusive::new"):
         return r[2][0]
     return None
 
@@ -234,7 +235,7 @@ def range_start(r):
 def range_end(r):
     if r[0] == "adt" and r[1] in ("std::ops::Range", "std::ops::RangeInclusive"):
         return dict(r[3]).get("end")
-    if r[0] == "call" and r[1].endswith("RangeInclusive::new"):
+    if r[0] == "call" and _nm(r[1], "RangeInclusive::new"):
         return r[2][1]
     return None
 
